@@ -513,6 +513,34 @@ lookup pos_orphan {
 }
 
 /// An anonymous GSUB rule inside a feature gets debug info with null name.
+// A named lookup block without rules produces no lookup; a contextual rule
+// that names it used to panic when the lookup records were built.
+#[test]
+fn contextual_rule_naming_empty_lookup() {
+    let compilation = compile_fea(
+        "\
+lookup EMPTY {
+} EMPTY;
+
+lookup EMPTY_POS {
+} EMPTY_POS;
+
+feature test {
+    sub a' lookup EMPTY b;
+} test;
+
+feature kern {
+    pos A' lookup EMPTY_POS B;
+} kern;
+",
+        "contextual_rule_naming_empty_lookup",
+    );
+    let gsub = compilation.gsub.as_ref().unwrap();
+    assert_eq!(gsub.lookup_list.lookups.len(), 1);
+    let gpos = compilation.gpos.as_ref().unwrap();
+    assert_eq!(gpos.lookup_list.lookups.len(), 1);
+}
+
 #[test]
 fn debg_anonymous_gsub_rule() {
     let json = compile_debg(
